@@ -458,8 +458,29 @@ func TestCheck(t *testing.T) {
 		}
 		c.Rapid("hist-"+kind, c.Pick(1500, 40000), func(t *rapid.T) *vt.Failure {
 			var ops []fsx.Op
+			// names that differ by case only are different names under both emulations (the emulated tree
+			// is case sensitive whatever the OS type): some operands get "A" for "a"
+			upper := func(p string) string {
+				switch {
+				case p == "/w/a" || strings.HasPrefix(p, "/w/a/"):
+					return "/w/A" + p[4:]
+				case p == "a" || strings.HasPrefix(p, "a/"):
+					return "A" + p[1:]
+				}
+				return p
+			}
+			cased := rapid.Bool().Draw(t, "cased")
 			for n := rapid.IntRange(1, 40).Draw(t, "n"); n > 0; n-- {
-				ops = append(ops, cfg.Draw(t)...)
+				in := cfg.Draw(t)
+				if cased && in[0].K != "Symlink" {
+					switch rapid.IntRange(0, 5).Draw(t, "upper") {
+					case 0:
+						in[0].P = upper(in[0].P)
+					case 1:
+						in[0].P2 = upper(in[0].P2)
+					}
+				}
+				ops = append(ops, in...)
 			}
 			if rapid.IntRange(0, 2).Draw(t, "root-glob") == 0 {
 				// a wildcard in the first component below the root / the volume root (the pattern's
